@@ -10,6 +10,7 @@ import (
 	"sort"
 
 	"github.com/33cn/chain33/account"
+	"github.com/33cn/chain33/blockchain"
 	"github.com/33cn/chain33/common"
 	"github.com/33cn/chain33/common/address"
 	"github.com/33cn/chain33/common/crypto"
@@ -17,6 +18,7 @@ import (
 	"github.com/33cn/chain33/common/log/log15"
 	"github.com/33cn/chain33/common/merkle"
 	"github.com/33cn/chain33/executor"
+	"github.com/33cn/chain33/queue"
 	_ "github.com/33cn/chain33/system" // register drivers
 	cty "github.com/33cn/chain33/system/dapp/coins/types"
 	"github.com/33cn/chain33/types"
@@ -115,7 +117,9 @@ func (b *Builder) Child(parent *types.Block, txs []*types.Transaction, bits uint
 func Keys() []crypto.PrivKey { return util.TestPrivkeyList }
 
 // Addr returns the default-format address of a key.
-func Addr(k crypto.PrivKey) string { return address.PubKeyToAddr(address.DefaultID, k.PubKey().Bytes()) }
+func Addr(k crypto.PrivKey) string {
+	return address.PubKeyToAddr(address.DefaultID, k.PubKey().Bytes())
+}
 
 // TransferTx is a signed coins transfer with an explicit nonce (so two calls give distinct hashes).
 func TransferTx(cfg *types.Chain33Config, from crypto.PrivKey, to string, amount, nonce int64) *types.Transaction {
@@ -140,7 +144,11 @@ type View struct {
 // header, body+receipts and total difficulty; per probed tx hash its index entry (or absence); per probed
 // address its balance at the tip state and its indexed tx count.
 func (n *Node) Snapshot(txHashes [][]byte, addrs []string) *View {
-	chain := n.GetBlockChain()
+	return SnapshotOf(n.GetBlockChain(), n.GetClient(), n.Cfg, txHashes, addrs, n.ProbeAddrIndex)
+}
+
+// SnapshotOf is Snapshot for any assembled blockchain module.
+func SnapshotOf(chain *blockchain.BlockChain, client queue.Client, cfg *types.Chain33Config, txHashes [][]byte, addrs []string, probeAddrIndex bool) *View {
 	st := chain.GetStore()
 	v := &View{Height: chain.GetBlockHeight()}
 	add := func(format string, a ...interface{}) { v.Lines = append(v.Lines, fmt.Sprintf(format, a...)) }
@@ -169,8 +177,8 @@ func (n *Node) Snapshot(txHashes [][]byte, addrs []string) *View {
 		} else {
 			add("h=%d body=%x ntx=%d nreceipt=%d", h, common.Sha256(types.Encode(normBlock(d.Block))), len(d.Block.Txs), len(d.Receipts))
 			add("h=%d receipts=%x", h, common.Sha256(types.Encode(&types.BlockDetail{Receipts: d.Receipts})))
-			if !bytes.Equal(d.Block.Hash(n.Cfg), hash) {
-				add("h=%d stored block hash %x differs from index", h, d.Block.Hash(n.Cfg))
+			if !bytes.Equal(d.Block.Hash(cfg), hash) {
+				add("h=%d stored block hash %x differs from index", h, d.Block.Hash(cfg))
 			}
 			tipState = d.Block.StateHash
 		}
@@ -205,15 +213,15 @@ func (n *Node) Snapshot(txHashes [][]byte, addrs []string) *View {
 	sa := append([]string(nil), addrs...)
 	sort.Strings(sa)
 	if tipState != nil {
-		sdb := executor.NewStateDB(n.GetClient(), tipState, nil, nil)
-		acc := account.NewCoinsAccount(n.Cfg)
+		sdb := executor.NewStateDB(client, tipState, nil, nil)
+		acc := account.NewCoinsAccount(cfg)
 		acc.SetDB(sdb)
 		for _, a := range sa {
 			ac := acc.LoadAccount(a)
 			add("acc %s balance=%d frozen=%d", a, ac.Balance, ac.Frozen)
 		}
 	}
-	if n.ProbeAddrIndex {
+	if probeAddrIndex {
 		// per-address local indexes (tx count, received total) are the subject of C14, not of C25's list of persisted chain facts
 		for _, a := range sa {
 			ov, err := chain.ProcGetAddrOverview(&types.ReqAddr{Addr: a})
